@@ -52,13 +52,25 @@ impl Reporter {
     }
 
     pub fn processing_loop(&mut self, keep_running: &AtomicBool) {
+        #[cfg(roughenough_verif)]
+        let _guard = crate::verif::thread_guard();
+
         while keep_running.load(Ordering::Relaxed) {
+            #[cfg(roughenough_verif)]
+            crate::verif::point("reporter_iter", 0);
+
             self.receive_client_stats();
 
             if Instant::now() >= self.next_update {
                 self.next_update = Instant::now() + self.report_interval;
                 self.report();
                 self.client_stats.clear();
+            }
+
+            #[cfg(roughenough_verif)]
+            if crate::verif::controlled() {
+                // a parked thread needs no sleep; the controller decides when it runs again
+                continue;
             }
 
             sleep(Duration::from_secs(1));
@@ -88,6 +100,12 @@ impl Reporter {
                 elapsed.as_secs_f32()
             );
         }
+    }
+
+    /// Merged per-client statistics currently held by the reporter
+    #[cfg(roughenough_verif)]
+    pub fn verif_client_stats(&self) -> Vec<ClientStats> {
+        self.client_stats.values().copied().collect()
     }
 
     pub fn report(&mut self) {
